@@ -162,6 +162,24 @@ fn run(line: &str) -> String {
                 Err(e) => format!("err {:?}", e),
             }
         }
+        "plan" => {
+            // plan <symbols> <modes> <hex>: data::encodation_plan + the data codewords of encode_data (macros off, no ECI)
+            let ms = modes(p[2]);
+            let mut fs = ms[0] | ms[0];
+            for m in &ms {
+                fs = fs | *m;
+            }
+            let data = unhex(p[3]);
+            let plan = datamatrix::data::encodation_plan(&data, &symbols(p[1]), fs);
+            let enc = match encode_data(&data, &symbols(p[1]), None, fs, false) {
+                Ok((cw, _)) => format!("cw={}", hex(&cw)),
+                Err(e) => format!("cw=err:{:?}", e),
+            };
+            match plan {
+                Some(pl) => format!("ok {} {}", pl.iter().map(|(n, m)| format!("{}:{:?}", n, m)).collect::<Vec<_>>().join(","), enc),
+                None => format!("none {}", enc),
+            }
+        }
         _ => "unknown-op".into(),
     }
 }
